@@ -87,10 +87,15 @@ def CORRELATION(x, y=None, maxlags=None, norm='unbiased'):
     assert norm in ['unbiased','biased', 'coeff', None]
     #transform lag into list if it is an integer
     x = np.array(x)
+    if x.dtype.kind in 'iub':
+        # integer samples (e.g. int16): the lag products do not fit the dtype
+        x = x.astype(float)
     if y is None:
         y = x
     else:
         y = np.array(y)
+        if y.dtype.kind in 'iub':
+            y = y.astype(float)
 
     # N is the max of x and y
     N = max(len(x), len(y))
@@ -198,8 +203,16 @@ def xcorr(x, y=None, maxlags=None, norm='biased'):
     .. seealso:: :func:`CORRELATION`.
     """
     N = len(x)
+    x = np.asarray(x)
+    if x.dtype.kind in 'iub':
+        # integer samples (e.g. int16): the lag products do not fit the dtype
+        x = x.astype(float)
     if y is None:
         y = x
+    else:
+        y = np.asarray(y)
+        if y.dtype.kind in 'iub':
+            y = y.astype(float)
     assert len(x) == len(y), 'x and y must have the same length. Add zeros if needed'
 
     if maxlags is None:
